@@ -90,6 +90,23 @@ impl Ctx {
     let verif_dir = PathBuf::from(std::env::var("VERIF_DIR").unwrap_or_else(|_| "/verif".into()));
     let (o, e) = capture_std();
     crate::calls::install_panic_hook();
+    {
+      let dir = verif_dir.clone();
+      let prop_s = prop.to_string();
+      let limit = std::env::var("VERIF_WATCHDOG_S").ok().and_then(|s| s.parse().ok()).unwrap_or(30u64);
+      crate::calls::start_watchdog(limit, move |what| {
+        let _ = std::fs::create_dir_all(dir.join("target"));
+        let p = dir.join("target").join(format!("hang_{}.json", prop_s));
+        let _ = std::fs::write(&p, &what);
+        let msg = format!(
+          "WATCHDOG: a call into the crate under test did not return within {} s; its inputs are in {} ; the run is inconclusive\n",
+          limit,
+          p.display()
+        );
+        let _ = std::fs::write(dir.join("target").join(format!("hang_{}.txt", prop_s)), &msg);
+        unsafe { libc::_exit(2) };
+      });
+    }
     let findings = Findings::load(&verif_dir, prop);
     Ctx {
       prop: prop.to_string(),
